@@ -645,4 +645,44 @@ func c16File(res *Result, c Case, dir string, eng *twig.Engine, name, src string
 	if !bytes.Equal(re, raw) {
 		oracle("file/content", c, c16Clip(string(raw)), c16Clip(string(re)), "re-serialising what the file deserialises to gives different bytes")
 	}
+	// the template changes and is saved again into the same directory (within the same second, and with a loader
+	// that reports no time stamps): the file follows the template
+	src2 := "second version of " + name + " {{ 1 + 1 }}"
+	for variant, mk := range map[string]func() *twig.Engine{
+		"registered again": func() *twig.Engine {
+			e := twig.New()
+			e.RegisterString(name, src2)
+			return e
+		},
+		"array loader": func() *twig.Engine {
+			e := twig.New()
+			e.RegisterLoader(twig.NewArrayLoader(map[string]string{name: src2}))
+			return e
+		},
+	} {
+		e2 := mk()
+		pan, hung = c16Guard(30*time.Second, func() { err = twig.NewCompiledLoader(dir).SaveCompiled(e2, name) })
+		res.Evaluations++
+		res.Hist["file:saved-again"]++
+		if pan != nil || hung || err != nil {
+			oracle("file/SaveCompiled again ("+variant+")", c, "file written", fmt.Sprintf("panic=%v hung=%v err=%v", pan, hung, err), "")
+			return
+		}
+		var got2 string
+		pan, hung = c16Guard(30*time.Second, func() { got2, err = twig.NewCompiledLoader(dir).Load(name) })
+		if pan != nil || hung || err != nil || got2 != src2 {
+			oracle("file/Load after the second save ("+variant+")", c, c16Clip(src2), fmt.Sprintf("%s (panic=%v hung=%v err=%v)", c16Clip(got2), pan, hung, err),
+				"the template was changed and saved again; the file read back is not the template as it is now")
+			return
+		}
+		// and back to the first source
+		e3 := twig.New()
+		e3.RegisterString(name, src)
+		if err := twig.NewCompiledLoader(dir).SaveCompiled(e3, name); err == nil {
+			if got3, err := twig.NewCompiledLoader(dir).Load(name); err != nil || got3 != src {
+				oracle("file/Load after the third save ("+variant+")", c, c16Clip(src), c16Clip(got3), "the file read back is not the template as it is now")
+				return
+			}
+		}
+	}
 }
